@@ -19,7 +19,7 @@ pub fn stub_f(x: u64, k: u64) -> u64 {
 
 // ------------------------------------------------------------------------------------------------ leaf lemmas
 
-//@ harness name=cam_leaf_f prop=C06,C20 tier=quick bits=128 est=15 desc="L: crate::utils::f(x, k) (8 S-box lookups times 64-bit spreading constants, overflow-checked multiplications) == RFC 3713 F-function (SBOX2..4 derived from SBOX1 by rotation, P-function as XOR equations) for all 2^128 (x, k)"
+//@ harness name=cam_leaf_f prop=C06,C20 tier=quick bits=128 est=10 desc="L: crate::utils::f(x, k) (8 S-box lookups times 64-bit spreading constants, overflow-checked multiplications) == RFC 3713 F-function (SBOX2..4 derived from SBOX1 by rotation, P-function as XOR equations) for all 2^128 (x, k)"
 verif_harness! {
     name: cam_leaf_f,
     bytes: 16,
@@ -31,7 +31,7 @@ verif_harness! {
     }
 }
 
-//@ harness name=cam_leaf_fl prop=C06,C01,C20 tier=quick bits=128 est=15 desc="L: crate::utils::fl / flinv == RFC 3713 FL / FLINV (byte-wise oracle) and flinv(fl(x,k),k) == x, fl(flinv(x,k),k) == x for all 2^128 (x, k); u32::try_from never fails"
+//@ harness name=cam_leaf_fl prop=C06,C01,C20 tier=quick bits=128 est=10 desc="L: crate::utils::fl / flinv == RFC 3713 FL / FLINV (byte-wise oracle) and flinv(fl(x,k),k) == x, fl(flinv(x,k),k) == x for all 2^128 (x, k); u32::try_from never fails"
 verif_harness! {
     name: cam_leaf_fl,
     bytes: 16,
@@ -152,14 +152,14 @@ macro_rules! cam_wire {
     };
 }
 
-//@ harness name=cam128_wire_enc prop=C06,C20 tier=quick bits=256 stub=1 est=40 desc="W: Camellia128::new(key).encrypt_block(b) == RFC 3713 key schedule (KA, subkeys) + 18 rounds with FL/FLINV layers, all 2^128 keys, all blocks; F uninterpreted (shared with the oracle)"
-//@ harness name=cam128_wire_dec prop=C06,C20 tier=quick bits=256 stub=1 est=50 desc="W: Camellia128::new(key).decrypt_block(b) == RFC 3713 decryption (subkeys swapped as in 2.3.3), all keys, all blocks; F uninterpreted"
+//@ harness name=cam128_wire_enc prop=C06,C20 tier=quick bits=256 stub=1 est=70 desc="W: Camellia128::new(key).encrypt_block(b) == RFC 3713 key schedule (KA, subkeys) + 18 rounds with FL/FLINV layers, all 2^128 keys, all blocks; F uninterpreted (shared with the oracle)"
+//@ harness name=cam128_wire_dec prop=C06,C20 tier=quick bits=256 stub=1 est=70 desc="W: Camellia128::new(key).decrypt_block(b) == RFC 3713 decryption (subkeys swapped as in 2.3.3), all keys, all blocks; F uninterpreted"
 cam_wire!(cam128_wire_enc, cam128_wire_dec, Camellia128, 16);
-//@ harness name=cam192_wire_enc prop=C06,C20 tier=quick bits=320 stub=1 est=95 need=4 desc="W: Camellia192::new(key).encrypt_block(b) == RFC 3713 (KR = Kr || ~Kr, KA, KB, subkeys, 24 rounds), all 2^192 keys, all blocks; F uninterpreted"
-//@ harness name=cam192_wire_dec prop=C06,C20 tier=quick bits=320 stub=1 est=75 need=4 desc="W: Camellia192::new(key).decrypt_block(b) == RFC 3713 decryption, all keys, all blocks; F uninterpreted"
+//@ harness name=cam192_wire_enc prop=C06,C20 tier=quick bits=320 stub=1 est=85 need=4 desc="W: Camellia192::new(key).encrypt_block(b) == RFC 3713 (KR = Kr || ~Kr, KA, KB, subkeys, 24 rounds), all 2^192 keys, all blocks; F uninterpreted"
+//@ harness name=cam192_wire_dec prop=C06,C20 tier=quick bits=320 stub=1 est=85 need=4 desc="W: Camellia192::new(key).decrypt_block(b) == RFC 3713 decryption, all keys, all blocks; F uninterpreted"
 cam_wire!(cam192_wire_enc, cam192_wire_dec, Camellia192, 24);
-//@ harness name=cam256_wire_enc prop=C06,C20 tier=quick bits=384 stub=1 est=85 need=4 desc="W: Camellia256::new(key).encrypt_block(b) == RFC 3713 (KA, KB, subkeys, 24 rounds), all 2^256 keys, all blocks; F uninterpreted"
-//@ harness name=cam256_wire_dec prop=C06,C20 tier=quick bits=384 stub=1 est=95 need=4 desc="W: Camellia256::new(key).decrypt_block(b) == RFC 3713 decryption, all keys, all blocks; F uninterpreted"
+//@ harness name=cam256_wire_enc prop=C06,C20 tier=quick bits=384 stub=1 est=90 need=4 desc="W: Camellia256::new(key).encrypt_block(b) == RFC 3713 (KA, KB, subkeys, 24 rounds), all 2^256 keys, all blocks; F uninterpreted"
+//@ harness name=cam256_wire_dec prop=C06,C20 tier=quick bits=384 stub=1 est=85 need=4 desc="W: Camellia256::new(key).decrypt_block(b) == RFC 3713 decryption, all keys, all blocks; F uninterpreted"
 cam_wire!(cam256_wire_enc, cam256_wire_dec, Camellia256, 32);
 
 // ------------------------------------------------------------------------------------------------ round trip (C01)
@@ -199,12 +199,12 @@ macro_rules! cam_rt {
     };
 }
 
-//@ harness name=cam128_rt_ed prop=C01 tier=quick bits=256 stub=1 est=35 desc="W: Camellia128::new(key): decrypt_block(encrypt_block(b)) == b for all 2^128 keys and all blocks; real key schedule, round loops and FL/FLINV, F uninterpreted (any function works for a Feistel network)"
-//@ harness name=cam128_rt_de prop=C01 tier=quick bits=256 stub=1 est=55 desc="W: Camellia128::new(key): encrypt_block(decrypt_block(b)) == b for all keys and blocks; F uninterpreted"
+//@ harness name=cam128_rt_ed prop=C01 tier=quick bits=256 stub=1 est=30 desc="W: Camellia128::new(key): decrypt_block(encrypt_block(b)) == b for all 2^128 keys and all blocks; real key schedule, round loops and FL/FLINV, F uninterpreted (any function works for a Feistel network)"
+//@ harness name=cam128_rt_de prop=C01 tier=quick bits=256 stub=1 est=40 desc="W: Camellia128::new(key): encrypt_block(decrypt_block(b)) == b for all keys and blocks; F uninterpreted"
 cam_rt!(cam128_rt_ed, cam128_rt_de, Camellia128, 16);
-//@ harness name=cam192_rt_ed prop=C01 tier=quick bits=320 stub=1 est=55 desc="W: Camellia192::new(key): decrypt_block(encrypt_block(b)) == b for all 2^192 keys and all blocks; F uninterpreted"
-//@ harness name=cam192_rt_de prop=C01 tier=quick bits=320 stub=1 est=45 desc="W: Camellia192::new(key): encrypt_block(decrypt_block(b)) == b for all keys and blocks; F uninterpreted"
+//@ harness name=cam192_rt_ed prop=C01 tier=quick bits=320 stub=1 est=50 desc="W: Camellia192::new(key): decrypt_block(encrypt_block(b)) == b for all 2^192 keys and all blocks; F uninterpreted"
+//@ harness name=cam192_rt_de prop=C01 tier=quick bits=320 stub=1 est=50 desc="W: Camellia192::new(key): encrypt_block(decrypt_block(b)) == b for all keys and blocks; F uninterpreted"
 cam_rt!(cam192_rt_ed, cam192_rt_de, Camellia192, 24);
-//@ harness name=cam256_rt_ed prop=C01 tier=quick bits=384 stub=1 est=50 desc="W: Camellia256::new(key): decrypt_block(encrypt_block(b)) == b for all 2^256 keys and all blocks; F uninterpreted"
-//@ harness name=cam256_rt_de prop=C01 tier=quick bits=384 stub=1 est=55 desc="W: Camellia256::new(key): encrypt_block(decrypt_block(b)) == b for all keys and blocks; F uninterpreted"
+//@ harness name=cam256_rt_ed prop=C01 tier=quick bits=384 stub=1 est=45 desc="W: Camellia256::new(key): decrypt_block(encrypt_block(b)) == b for all 2^256 keys and all blocks; F uninterpreted"
+//@ harness name=cam256_rt_de prop=C01 tier=quick bits=384 stub=1 est=40 desc="W: Camellia256::new(key): encrypt_block(decrypt_block(b)) == b for all keys and blocks; F uninterpreted"
 cam_rt!(cam256_rt_ed, cam256_rt_de, Camellia256, 32);
